@@ -11,7 +11,10 @@ COQ_CASE_TYPE = "case_t"
 TRUSTED = I.TRUSTED
 ASSUMPTIONS = c04.ASSUMPTIONS + ["every iteration of a side sampler yields len(sampler) valid indices (any order, may "
                                  "change from pass to pass); set_epoch is not called on side samplers"]
-RULE = ("same generator as C04 with 1-4 configs favoured (thorough: up to 6), 40% of the longer side samplers yield "
+RULE = ("same generator as C04 with 1-4 configs favoured (thorough: up to 6; plus evaluation suites of 9-14 configs over "
+        "tiny datasets with different intervals, only a few configs far apart in the list due after an update), "
+        "indices yielded as Python ints / numpy scalars / 0-d tensor views of an index tensor the sampler keeps "
+        "(snapshotted before / after: the scheduler must not change it), 40% of the longer side samplers yield "
         "another order on every pass; non-trivial = at least one side pass after a main update or a zero budget with "
         "configs; distinct by (geometry, budget, config intervals); plus construction histories: the same config "
         "and sampler objects handed to 2-3 InterleavedSamplers with different main batch sizes / budgets (training "
@@ -40,6 +43,10 @@ def gen_cases(rng, tier):
             c = I.gen_bounded(rng, size="large")
             if c["sides"]:
                 out.append(c)
+    # evaluation suites: 9-14 configs with different intervals, few (sparse) configs due after an update
+    out += [I.gen_many_configs(rng) for _ in range(60 if tier == "quick" else 600)]
+    # main and side samplers drawing lazily from one shared draw source
+    out += [I.gen_drawn_case(rng) for _ in range(30 if tier == "quick" else 300)]
     # construction histories: the same config objects in several InterleavedSamplers
     k = 0
     while k < (130 if tier == "quick" else 1500):
@@ -80,7 +87,8 @@ def side_proj(case, log):
 
 def oracle(case, obs):
     """what the streams show first, then: no step of the history changed a config object it was given"""
-    return stream_oracle(case, obs) or ("harness_exception" not in obs and I.config_mutation_violation(obs)) or None
+    return (stream_oracle(case, obs)
+            or ("harness_exception" not in obs and (I.storage_violation(obs) or I.config_mutation_violation(obs))) or None)
 
 
 def stream_oracle(case, obs):
